@@ -2,8 +2,8 @@
    harness (Rust, real code) and this model decode it the same way and print a
    canonical text result. The case reader is the Buffer model itself. *)
 From GD Require Import Base.Prelude Model.Strings Model.Buffer Model.Unreal2Str Model.BufOps.
-From GD Require Import Model.Net Model.Valve Model.ValveShow.
-From GD Require Import Spec.Rand Spec.ValveSpec Spec.ValveGen Spec.CaseEnc.
+From GD Require Import Model.Net Model.Valve Model.ValveShow Model.Master.
+From GD Require Import Spec.Rand Spec.ValveSpec Spec.ValveGen Spec.CaseEnc Spec.MasterSpec.
 
 Definition rd_u8 : R N := read_uint true 1.
 Definition rd_u16 : R N := read_uint true 2.
@@ -202,6 +202,64 @@ Definition case_spec_valve : R bytes :=
        ++ str ";g=" ++ show_hex (enc_toggle (g_players gg) ++ enc_toggle (g_rules gg))
        ++ str ";pk=" ++ show_hex (simple_header ++ p1) ++ str "," ++ show_hex (simple_header ++ p2) ++ str "," ++ show_hex (simple_header ++ p3)).
 
+(* family 16: master server. ops build the SearchFilters *)
+Definition rd_filter : R mfilter :=
+  let* k := rd_u8 in
+  let rb := (let* b := rd_u8 in ret (negb (b =? 0))) in
+  if k =? 0 then let* b := rb in ret (IsSecured b)
+  else if k =? 1 then let* s := rd_bytes16 in ret (RunsMap s)
+  else if k =? 2 then let* b := rb in ret (CanHavePassword b)
+  else if k =? 3 then let* b := rb in ret (CanBeEmpty b)
+  else if k =? 4 then let* b := rb in ret (IsEmpty b)
+  else if k =? 5 then let* b := rb in ret (CanBeFull b)
+  else if k =? 6 then let* n := rd_u32 in ret (RunsAppID n)
+  else if k =? 7 then let* n := rd_u32 in ret (NotAppID n)
+  else if k =? 8 then let* n := rd_u8 in let* t := rd_list (N.to_nat n) rd_bytes16 in ret (HasTags t)
+  else if k =? 9 then let* s := rd_bytes16 in ret (MatchName s)
+  else if k =? 10 then let* s := rd_bytes16 in ret (MatchVersion s)
+  else if k =? 11 then let* b := rb in ret (RestrictUniqueIP b)
+  else if k =? 12 then let* s := rd_bytes16 in ret (OnAddress s)
+  else if k =? 13 then let* b := rb in ret (Whitelisted b)
+  else if k =? 14 then let* b := rb in ret (SpectatorProxy b)
+  else if k =? 15 then let* b := rb in ret (IsDedicated b)
+  else if k =? 16 then let* b := rb in ret (RunsLinux b)
+  else let* s := rd_bytes16 in ret (HasGameDir s).
+Definition rd_sf_op : R (group * mfilter) :=
+  let* g := rd_u8 in let* f := rd_filter in
+  ret ((if g =? 0 then Plain else if g =? 1 then Nand else Nor), f).
+Definition show_addr (a : addr) : bytes := show_ip (addr_ip a) ++ str ":" ++ show_N (addr_port a).
+Definition case_master : R bytes :=
+  let* port := rd_u16 in
+  let* region := rd_u8 in
+  let* has := rd_u8 in
+  let* nops := rd_u8 in
+  let* ops := rd_list (N.to_nat nops) rd_sf_op in
+  let* mode := rd_u8 in
+  let* a1 := rd_u8 in let* a2 := rd_u8 in let* a3 := rd_u8 in let* a4 := rd_u8 in let* lp := rd_u16 in
+  let* n := rd_script in
+  let sf := fold_left (fun s gf => sf_insert (fst gf) (snd gf) s) ops sf_new in
+  let fb := if has =? 0 then [0] else sf_bytes_canon sf in
+  ret (show_query (show_list show_addr)
+         (if mode =? 0 then master_query port region fb n
+          else master_query_specific port region fb (a1, a2, a3, a4, lp) n)).
+
+(* family 116: master-server spec case: seed -> datagrams | expected | seeds *)
+Definition case_spec_master : R bytes :=
+  let* seed := rd_u64 in
+  let l := fst (gen_listing seed) in
+  ret (intercalate (str ",") (map show_hex (listing_script l)) ++ str "|"
+       ++ show_outcome (show_list show_addr) (Ok (listing_expected l)) ++ str "|"
+       ++ intercalate (str ",") (map show_addr (listing_seeds l)) ++ str "|"
+       ++ str "np=" ++ show_N (lenN (l_pages l)) ++ str ";nb=" ++ show_N (lenN (l_final_before l))
+       ++ str ";na=" ++ show_N (lenN (l_final_after l))).
+(* family 117: what a filter string denotes (the Spec's grammar) *)
+Definition show_pairs (p : pairs_t) : bytes :=
+  show_list (fun kv => show_str (fst kv) ++ str "=" ++ show_str (snd kv)) p.
+Definition case_spec_denote : R bytes :=
+  let* fb := rd_bytes32 in
+  ret (show_option (fun g => show_pairs (gr_plain g) ++ str "/" ++ show_pairs (gr_nand g) ++ str "/" ++ show_pairs (gr_nor g))
+         (denote fb)).
+
 Definition run_case_R : R bytes :=
   let* fam := rd_u8 in
   if fam =? 1 then case_bufops
@@ -212,7 +270,10 @@ Definition run_case_R : R bytes :=
   else if fam =? 6 then case_varint_rt
   else if fam =? 7 then case_string_rt
   else if fam =? 10 then case_valve
+  else if fam =? 16 then case_master
   else if fam =? 110 then case_spec_valve
+  else if fam =? 116 then case_spec_master
+  else if fam =? 117 then case_spec_denote
   else fail InvalidInput.
 
 Definition run_case (c : bytes) : bytes :=
